@@ -116,6 +116,8 @@ static int fail_errno = EIO;
 static int fail_persist;       /* keep failing after fail_at */
 static int fail_after;         /* perform the call, then report failure (effect applied) */
 static char fail_ops[128];     /* "" = any op; else comma list e.g. "pwrite,fsync" */
+static long delay_at = -1;     /* this call takes delay_ms longer (a slow disk), once */
+static long delay_ms = 0;
 static int io_log_fd = -1;
 static int io_init_done;
 static int io_enabled = 1;
@@ -138,6 +140,7 @@ static void io_init(void) {
 }
 
 void tcss_io_reset(void) {
+  delay_at = -1;
   pthread_mutex_lock(&io_mu);
   io_init();
   io_seq = 0; crash_at = -1; fail_at = -1; fail_persist = 0; fail_after = 0; fail_errno = EIO;
@@ -153,6 +156,7 @@ void tcss_io_fail(long at, int err, int persist, int after) {
   pthread_mutex_unlock(&io_mu);
 }
 void tcss_io_crash(long at) { io_init(); crash_at = at; }
+void tcss_io_delay(long at, long ms) { io_init(); delay_at = at; delay_ms = ms; }
 void tcss_io_log(const char *path) {
   static int (*real_open)(const char *, int, ...);
   if (!real_open) real_open = dlsym(RTLD_NEXT, "open");
@@ -243,7 +247,15 @@ static int io_gate(const char *op, const char *cls, long long off, long long len
     }
     real_write(io_log_fd, "\n", 1);
   }
+  int slow = (delay_at >= 0 && seq == delay_at) ? (int)delay_ms : 0;
+  if (slow) delay_at = -1;
   pthread_mutex_unlock(&io_mu);
+  if (slow) {
+    static int (*real_nanosleep)(const struct timespec *, struct timespec *);
+    if (!real_nanosleep) real_nanosleep = dlsym(RTLD_NEXT, "nanosleep");
+    struct timespec ts = { slow / 1000, (long)(slow % 1000) * 1000000L };
+    real_nanosleep(&ts, NULL);
+  }
   return decision;
 }
 
